@@ -514,11 +514,11 @@ func (s *nServer) down() {
 	}
 }
 
-func (s *nServer) up(addr string) error {
+func (s *nServer) up(rp *reservedPort) error {
 	var err error
 	for i := 0; i < 300; i++ {
 		var ln net.Listener
-		if ln, err = net.Listen("tcp", addr); err == nil {
+		if ln, err = rp.listen(); err == nil {
 			s.mu.Lock()
 			s.ln = ln
 			s.mu.Unlock()
@@ -544,12 +544,12 @@ type scaleOutcome struct {
 
 func executeRestartScale(sc Scenario) (out scaleOutcome) {
 	out.sc = sc
-	ln, err := net.Listen("tcp", "127.0.0.1:0")
+	ln, rp, err := listenReserved()
 	if err != nil {
 		out.harness = "listen: " + err.Error()
 		return
 	}
-	addr := ln.Addr().String()
+	defer rp.release()
 	srv := &nServer{ln: ln}
 	go srv.serve(ln)
 	defer func() { srv.down() }()
@@ -604,7 +604,7 @@ func executeRestartScale(sc Scenario) (out scaleOutcome) {
 				out.downSlow++
 			}
 		}
-		if err := srv.up(addr); err != nil {
+		if err := srv.up(rp); err != nil {
 			out.harness = "listen again: " + err.Error()
 			return
 		}
